@@ -162,8 +162,18 @@ pub fn worker_c19(tier: Tier, seed: u64, shard: usize, nshards: usize) -> i32 {
                     _ => {}
                 }
             }
-            let new_len = std::fs::metadata(&file).map(|m| m.len()).unwrap_or(0);
+            let new_meta = std::fs::metadata(&file).ok();
+            let new_len = new_meta.as_ref().map(|m| m.len()).unwrap_or(0);
             let size_class = if new_len == old_len { "equal-size" } else { "other-size" };
+            // what the file system now shows, which is what a cache can see (the intended policy stays in the detail)
+            let secs = |t: std::time::SystemTime| t.duration_since(std::time::UNIX_EPOCH).map(|d| d.as_secs()).unwrap_or(0);
+            let relation = match (old_mtime, new_meta.as_ref().and_then(|m| m.modified().ok())) {
+                (Some(a), Some(b)) if a == b => "mtime-identical",
+                (Some(a), Some(b)) if secs(a) == secs(b) => "mtime-same-second",
+                (Some(a), Some(b)) if b > a => "mtime-later",
+                (Some(_), Some(_)) => "mtime-earlier",
+                _ => "mtime-unknown",
+            };
             history.push(format!("{}/{}/{}", method, policy, size_class));
             cur = next;
             let fresh = fresh_ctx(&dir);
@@ -174,7 +184,7 @@ pub fn worker_c19(tier: Tier, seed: u64, shard: usize, nshards: usize) -> i32 {
                     let good = matches!(&got, Outcome::Ok(a) if multiset_eq(&a.rows, &want).is_ok());
                     em.emit_value(
                         &format!("h{}.s{}.{}.q{}", h, step, kind, qi),
-                        json!({"ok": good, "sql": sql, "got": got.short(), "want_rows": want.len(), "ctx": kind, "policy": policy, "method": method, "size": size_class, "mode": mode, "history": history, "rows": cur.rows.len(), "opts": opts.json(),
+                        json!({"ok": good, "sql": sql, "got": got.short(), "want_rows": want.len(), "ctx": kind, "policy": policy, "mtime": relation, "method": method, "size": size_class, "mode": mode, "history": history, "rows": cur.rows.len(), "opts": opts.json(),
                                "got_rows": got.rows().map(|r| crate::canon::rows_json(r, 6)), "want_sample": crate::canon::rows_json(&want, 6)}),
                     );
                 }
@@ -221,7 +231,7 @@ pub fn run_c19(tier: Tier, seed: u64) -> i32 {
                 }
                 continue;
             }
-            let (ctxk, policy, method, size) = (v["ctx"].as_str().unwrap_or(""), v["policy"].as_str().unwrap_or(""), v["method"].as_str().unwrap_or(""), v["size"].as_str().unwrap_or(""));
+            let (ctxk, policy, method, size) = (v["ctx"].as_str().unwrap_or(""), v["mtime"].as_str().unwrap_or(""), v["method"].as_str().unwrap_or(""), v["size"].as_str().unwrap_or(""));
             let q = key.rsplit('.').next().unwrap_or("");
             rep.nontrivial(&(name.clone(), ctxk.to_string(), method.to_string(), policy.to_string(), size.to_string(), q.to_string()));
             if !ok {
